@@ -9,7 +9,7 @@ namespace Algobra.C04Check
 theorem tab_ok : tabOK tab = true := by native_decide
 
 /-- number of entries, shape of every entry, keys strictly increasing -/
-theorem db_shape_ok : dbShapeOK db 35357 = true := by native_decide
+theorem db_shape_ok : dbShapeOK db Data.dbCount = true := by native_decide
 
 /-- the only places where `[digits,digits,[` occurs in the text are the keys of the parsed entries -/
 theorem scan_ok : scanOK = true := by native_decide
